@@ -145,9 +145,9 @@ Definition authorization_unmarshal_with (order : order_t) (s : list N) : res aut
       match b64_decode rest with
       | None => Err
       | Some tmp =>
-        match split_on COLON tmp with
-        | [u; p] => Ok (mkAuthorization 0 u p [] [] [] [] None None)
-        | _ => Err            (* a password containing ':' lands here *)
+        match cut COLON tmp with      (* strings.SplitN(string(tmp), ":", 2) must give two parts *)
+        | Some (u, p) => Ok (mkAuthorization 0 u p [] [] [] [] None None)
+        | None => Err
         end
       end
     else if list_eqb m S_Digest then
